@@ -201,3 +201,7 @@ fn c14_objects_faithful() {
     kani::cover!(m == 2 && k == 4, "largest shape");
     kani::cover!(k == 0, "empty opaque object");
 }
+
+/// Harness-side mutable statics to reset between native witness-search trials (none here).
+#[allow(dead_code)]
+fn verif_reset_statics() {}
